@@ -856,12 +856,12 @@ def run(check, unrecognised):  # pylint: disable=too-many-locals,too-many-branch
 		checker, _ = real_deps_checker()
 		sources = sorted({a for a, _ in pairs})
 		destinations = sorted({b for _, b in pairs})
-		chosen_pairs = set(pairs if not quick else rng.sample(pairs, min(len(pairs), 100)))
-		for _ in range(100 if quick else 1500):
+		chosen_pairs = set(pairs if not quick else rng.sample(pairs, min(len(pairs), 40)))
+		for _ in range(40 if quick else 1500):
 			chosen_pairs.add((rng.choice(sources), rng.choice(destinations)))
 		dep_cases = sorted(pair for pair in chosen_pairs if all(32 <= ord(c) < 127 and c != '"' for c in pair[0] + pair[1]))
 		dep_real = ['T' if checker.match('x.h', a, b, 'y.h') else 'F' for a, b in dep_cases]
-		config_texts = [random_deps_config(rng) for _ in range(120 if quick else 3000)]
+		config_texts = [random_deps_config(rng) for _ in range(80 if quick else 3000)]
 		config_cases = [(text, model_rules_expr(text)) for text in config_texts]
 		config_cases = [(text, expr) for text, expr in config_cases if expr is not None]
 		shipped = {}
@@ -872,7 +872,7 @@ def run(check, unrecognised):  # pylint: disable=too-many-locals,too-many-branch
 			DEPS_PRELUDE,
 			['sources_now'] + [f'bool_to_string (allowed_now (L "{a}") (L "{b}"))' for a, b in dep_cases] + [expr for _, expr in config_cases]
 			+ [f'targets_of {coq_string(source)}' for source in shipped_sources],
-			'c19d', shard=20 if quick else 60, timeout=1500)
+			'c19d', shard=16 if quick else 60, timeout=1500)
 		check.case('deps:shipped-config-sources', 'deps.config')
 		if sorted(set(dep_models[0].split(';'))) != shipped_sources:
 			check.disagree(
